@@ -413,6 +413,11 @@ def main(argv):
             bad = []
         seen_min = set()
         for (c, hs, io, mo) in bad[:25]:
+            cl0 = prop.classify(c, io, mo)
+            if cl0 is not None and cl0 in findings:
+                # explained by a recorded defect: no need to minimise it again
+                known_hit.setdefault(cl0, prop.describe(c, mo))
+                continue
             small = c if args.replay else shrink(prop, c, hs, case_timeout)
             if small is not c:
                 b2, mo2, ib2 = evaluate(prop, [small], [hs], case_timeout)
